@@ -364,6 +364,50 @@ def extract_fn(item, opts, blocks, rewrites_log, as_stub=False):
                     q = e + 1; continue
             q += 1
 
+    # ---- R4f (opt fmax=1): `X.iter().map(|P| BODY).reduce(f64::max).unwrap()` with X an identifier
+    #      ->  `{ if X.len() == 0 { <panic site> } let mut verif_m = { let P = X[0]; BODY }; for verif_k in verif_fm: 1..X.len() { let P = X[verif_k]; verif_m = verif_f64_max(verif_m, BODY); } verif_m }`
+    #      (std semantics of Iterator::map / reduce: left fold over the elements in order, None - hence the unwrap panic - exactly for an empty slice; elements are Copy).
+    #      Inside BODY, `R.abs()` becomes `verif_f64_abs(R)` (rule R13; R an identifier or a parenthesised expression). Ghost text: blocks `fmaxloop k` (invariants), `fmaxend k` (end of loop body).
+    if opts.get('fmax') == '1' and not as_stub:
+        q = bodyp + 1; nf = 0
+        while q < bodye - 20:
+            pat = [tk(q + i)[1] for i in range(1, 9)]
+            if tk(q)[0] == 'id' and pat[:7] == ['.', 'iter', '(', ')', '.', 'map', '('] and tk(q + 8)[1] == '|' and tk(q + 9)[0] == 'id' and tk(q + 10)[1] == '|':
+                cm = match_close(toks, ci, q + 7)
+                tail = [tk(cm + i)[1] for i in range(1, 12)]
+                if tail == ['.', 'reduce', '(', 'f64', '::', 'max', ')', '.', 'unwrap', '(', ')']:
+                    nf += 1; x = tk(q)[1]; pv = tk(q + 9)[1]
+                    btxt = text[tk(q + 11)[2]:tk(cm - 1)[3]]
+                    # R13 inside BODY: RECV.abs() -> verif_f64_abs(RECV)
+                    btoks = tokenize(btxt); bci = code_tokens(btoks)
+                    bed = []
+                    for bi in range(len(bci) - 3):
+                        if btoks[bci[bi]][1] == '.' and btoks[bci[bi + 1]][1] == 'abs' and btoks[bci[bi + 2]][1] == '(' and btoks[bci[bi + 3]][1] == ')' and bi >= 1:
+                            pr = bi - 1
+                            if btoks[bci[pr]][1] == ')':
+                                d = 0; k2 = pr
+                                while k2 >= 0:
+                                    if btoks[bci[k2]][1] == ')': d += 1
+                                    elif btoks[bci[k2]][1] == '(':
+                                        d -= 1
+                                        if d == 0: break
+                                    k2 -= 1
+                                rs = btoks[bci[k2]][2]
+                            elif btoks[bci[pr]][0] == 'id': rs = btoks[bci[pr]][2]
+                            else: raise GenErr('%s: R13 receiver of .abs() not recognised' % item.name)
+                            bed.append((rs, rs, 'verif_f64_abs(')); bed.append((btoks[bci[bi]][2], btoks[bci[bi + 3]][3], ')'))
+                    body2 = apply_edits(btxt, bed)
+                    stub = 'verif_refuse()' if mode == 'refuse' else 'verif_unreachable()'
+                    s0 = tk(q)[2]; e0 = tk(cm + 11)[3]
+                    newt = ('{ if %s.len() == 0 { %s; } let mut verif_m = { let %s = %s[0]; %s }; %sfor verif_k in verif_fm: 1..%s.len() %s{ let %s = %s[verif_k]; let ghost verif_m0 = verif_m; verif_m = verif_f64_max(verif_m, %s); %s} verif_m }'
+                            % (x, stub, pv, x, body2, G('fmaxinit %d' % nf, '\n' + blocks.get('fmaxinit %d' % nf, '').rstrip() + '\n'), x, G('fmaxloop %d' % nf, '\n' + blocks.get('fmaxloop %d' % nf, '').rstrip() + '\n'), pv, x, body2,
+                               G('fmaxend %d' % nf, '\n' + blocks.get('fmaxend %d' % nf, '').rstrip() + '\n')))
+                    edits.append((s0, e0, R('4', text[s0:e0], newt)))
+                    r4_spans.append((s0, e0))
+                    rewrites_log.append({'rule': 'R4', 'fn': item.name, 'before': re.sub(r'\s+', ' ', text[s0:e0])[:200], 'after': re.sub(r'/\*@G.*?\*/.*?/\*@/G\*/', '', newt, flags=re.S)[:240]})
+                    q = cm + 12; continue
+            q += 1
+
     # ---- R4e (opt foreach=a,b): `for V in X {` with X one of the named reference-to-Vec/slice variables
     #      ->  `for verif_eN in 0..X.len() { let V = &X[verif_eN];`   (std semantics of IntoIterator for &Vec<T> / &[T]: the elements by reference, in order).
     #      The `for` keeps its place, so loop / loopiter / loopstart / loopend blocks address it by ordinal as usual.
@@ -487,7 +531,7 @@ def extract_fn(item, opts, blocks, rewrites_log, as_stub=False):
         for (s0, e0) in sel:
             user_spans.append((s0, e0, frm, to))
     def in_user(pos):
-        return any(a <= pos < b for (a, b, _, _) in user_spans)
+        return any(a <= pos < b for (a, b, _, _) in user_spans) or any(a <= pos < b for (a, b) in r4_spans)
 
     # ---- body rewrites (R3 / R9) ----
     p = bodyp + 1
@@ -567,7 +611,7 @@ def extract_fn(item, opts, blocks, rewrites_log, as_stub=False):
             while q < loops[k - 1][1] and not (tk(q)[0] == 'id' and tk(q)[1] == 'in'): q += 1
             pos = tk(q)[3]
             edits.append((pos, pos, G(key, ' %s: ' % nm)))
-        elif key.startswith('iterloop ') or key.startswith('iterend ') or key.startswith('iterbody '):
+        elif key.startswith('iterloop ') or key.startswith('iterend ') or key.startswith('iterbody ') or key.startswith('fmaxloop ') or key.startswith('fmaxend ') or key.startswith('fmaxinit '):
             continue
         elif key.startswith('loop '):
             k = int(key.split()[1])
@@ -800,7 +844,7 @@ def parse_extract_blocks(lines, i):
                 cur = d.split()[0]
             elif d.split()[0] == 'loopiter':
                 cur = 'loopiter %d %s' % (int(d.split()[1]), d.split()[2])
-            elif d.split()[0] in ('iterloop', 'iterend', 'iterbody'):
+            elif d.split()[0] in ('iterloop', 'iterend', 'iterbody', 'fmaxloop', 'fmaxend', 'fmaxinit'):
                 cur = '%s %d' % (d.split()[0], int(d.split()[1]))
             elif d.split()[0] in ('loop', 'loopend', 'loopstart', 'afterloop'):
                 cur = '%s %d' % (d.split()[0], int(d.split()[1])) if d.split()[0] == 'loop' else '%s %d -' % (d.split()[0], int(d.split()[1]))
@@ -980,7 +1024,7 @@ def generate(unit_name):
             frag = types.SimpleNamespace(text=text[s0:e0], name=name + '#fragment', line=item.line + text.count('\n', 0, s0), path=path, kind='fn', impl=item.impl)
             fblocks = {'_rewrites': blocks.get('_rewrites', []), '_lines': {}}
             for kx, vx in blocks.items():
-                if kx.startswith('before ') or kx.startswith('after ') or kx.startswith('loop') or kx.startswith('blockend '): fblocks[kx] = vx
+                if kx.startswith('before ') or kx.startswith('after ') or kx.startswith('loop') or kx.startswith('blockend ') or kx.startswith('fmax') or kx.startswith('iter'): fblocks[kx] = vx
             wrapper = types.SimpleNamespace(text='fn verif_frag() {' + frag.text + '}', name=frag.name, line=frag.line, path=path, kind='fn', impl=item.impl)
             o2 = dict(opts); o2.pop('first', None); o2.pop('last', None); o2.pop('lastexpr', None); o2.pop('lastblock', None)
             body = extract_fn(wrapper, o2, fblocks, u.rewrites)
